@@ -55,6 +55,11 @@ def build_sampler(H, variant, pfx="s."):
 def fill_sampler(H, s, variant, pfx="s."):
     """Give an existing Sampler (fresh or loaded) the symbolic state described by `variant`."""
     rw.sym_controllers(H, s, pfx + "c.")
+    if variant.get("vibrato_full_width"):
+        # "all field values within their struct widths": the record holds these as uint8 / uint16, which is
+        # wider than the ranges the controllers declare (a lenient load keeps such values)
+        for f, (lo, hi) in (("vibrato_attack", K.U8), ("vibrato_depth", K.U8), ("vibrato_rate", K.U8), ("volume_fadeout", K.U16)):
+            s.controller_values[f] = H.int(pfx + "wide." + f, lo, hi)
     rw.sym_options(H, s, pfx + "o.")
     for f, (lo, hi) in RECORD_FIELDS.items():
         if variant.get("lean") and f in ("max_version", "editor_cursor", "editor_selected_size"):
@@ -154,6 +159,7 @@ VARIANTS = {
     "envelope_counts": {"points": {"volume": 0, "panning": 12, "pitch": 1, "effect1": 13, "effect2": 0}, "iname": 22},
     "empty_volume_fine_panning": {"points": {"volume": 0, "panning": 4}, "iname": 0},
     # more points than the legacy header's 8-bit counters can express (the envelope chunk's are 16-bit)
+    "vibrato_fields_at_struct_width": {"vibrato_full_width": True, "iname": 2, "lean": True},
     "envelopes_longer_than_255": {"points": {"volume": 256, "panning": 300, "pitch": 257}, "iname": 3, "lean": True},
 }
 
